@@ -196,7 +196,7 @@ DEPENDS = [
     (r"combinators", ["C01", "C12"]),
     (r"stored-bytes rule|raw rule", ["C01", "C11", "C12", "C17"]),
     (r"header pin", ["C04", "C14"]),
-    (r"read_at|single_fail", ["C15"]),
+    (r"read_at|single_fail|decompress", ["C15"]),
     (r"open options|step |temp file|seed open|archive open", ["C14", "C16", "C11", "C05", "C06", "C01", "C02", "C03", "C04", "C13", "C17"]),
 ]
 
